@@ -4,6 +4,7 @@ import hashlib
 import numpy as np
 
 _GLOBAL = np.random.mtrand._rand  # the real process-wide generator object (S1)
+_BITGEN = _GLOBAL._bit_generator
 
 
 # ------------------------------------------------------------------------------ RNG model
@@ -59,7 +60,10 @@ class RngModel:
         raise ValueError(kind)
 
     def in_sync(self):
-        return raw_state(_GLOBAL) == raw_state(self.rs)
+        # same state bit for bit (key, position, cached Gaussian) AND still the same objects: a user may hold
+        # references to the global RandomState / its bit generator
+        return (raw_state(_GLOBAL) == raw_state(self.rs) and np.random.mtrand._rand is _GLOBAL
+                and _GLOBAL._bit_generator is _BITGEN)
 
 
 # ------------------------------------------------------------------------------ digests
